@@ -45,7 +45,7 @@ def run(tmp, seed, tier, ENV, HARNESS, overlay, log):
         res["summary"]["skipped"] = "the lookup routines are not separate symbols in this build (%s found)" % sorted(rng)
         return res
     rounds = 2 if tier == "quick" else 8
-    e = dict(ENV, GODEBUG="asyncpreemptoff=1", GOMAXPROCS="1", GOGC="off")
+    e = dict(ENV, GODEBUG="asyncpreemptoff=1" + ("," + ENV["VERIF_GODEBUG_EXTRA"] if ENV.get("VERIF_GODEBUG_EXTRA") else ""), GOMAXPROCS="1", GOGC="off")
     sh = 'valgrind --tool=lackey --trace-mem=yes --log-fd=9 -q "$P" "$SEED" "$ROUNDS" reuse 9>&1 >"$SOUT" 2>&1'
     env = dict(e, P=probe, SEED=str(seed), ROUNDS=str(rounds), SOUT=os.path.join(d, "stdout.txt"))
     try:
